@@ -16,6 +16,13 @@ CHECKS = {
     },
 }
 
+CHECKS['C06'] = {
+    'text': 'Axis.tla / SidesConv.tla: a stored PSD under every sequence of sides assignments (all basis vectors, NFFT 1..9/12, real and complex, histories <= 3/4); TLC checks length, power, axis alignment, equal split and path independence on the model; each state (one history) is replayed on a real Spectrum object (sides setter, get_converted_psd, frequencies) and each one-step conversion on the tools helpers and arma2psd(centerdc); values are dyadic so comparison is exact.',
+    'design_ref': 'DESIGN.md 2.1, 3/C06',
+    'note': 'By linearity only basis vectors are stored; NFFT <= 12. Trusted: TLC, the dump parser, exact float comparison of dyadic values.',
+    'technique': 'TLA+ layout/conversion model + TLC exhaustive histories + per-state script replay on the real object',
+}
+
 NOT_APPLICABLE = {
     'C18': 'Slepian tapers: irrational eigenproblem solved in C; no exact finite model exists and quantised re-verification would make Python the oracle (a different technique). DESIGN.md section 4.',
 }
